@@ -358,6 +358,7 @@ func (e *Engine) Run(fn *ssa.Function, base Options) *Result {
 }
 
 func (e *Engine) runPath(fn *ssa.Function, prefix []uint64, base Options) {
+	e.resetGlobals()
 	e.S.Reset()
 	e.pc = nil
 	e.prefix = prefix
@@ -385,6 +386,7 @@ func (e *Engine) runPath(fn *ssa.Function, prefix []uint64, base Options) {
 	e.files = nil
 	e.dirOff = nil
 	e.md5Acc = nil
+	e.pools = nil
 	e.gomaxprocs = nil
 	e.tableLoop = nil
 	e.absKernel = nil
